@@ -18,7 +18,7 @@ res() { echo "[$ID] $1"; }
 git apply --whitespace=nowarn "$SRC/patch.diff" || { res "FAIL: patch does not apply"; exit 1; }
 go build ./... || { res "FAIL: does not build with patch"; exit 1; }
 if ! go test -vet=off -count=1 ./... > /tmp/vseed-$ID.full.log 2>&1; then res "FAIL: existing suite fails with patch"; tail -20 /tmp/vseed-$ID.full.log; exit 1; fi
-cp "$DEMO" "$DEST/$DEMONAME"
+mkdir -p "$DEST"; cp "$DEMO" "$DEST/$DEMONAME"
 if go test -vet=off -count=1 -timeout 300s -run "$RUN" "$PKG" > /tmp/vseed-$ID.with.log 2>&1; then res "FAIL: demo passes WITH the patch"; exit 1; fi
 grep -q "^--- FAIL\|^FAIL\|panic:" /tmp/vseed-$ID.with.log || { res "FAIL: demo did not run/fail properly"; tail /tmp/vseed-$ID.with.log; exit 1; }
 git checkout -q -- . 
